@@ -362,11 +362,21 @@ func pairFieldOrigins(v ssa.Value) []ssa.Value {
 		// field of a spilled struct: load of FieldAddr(alloc) -> the stores into the alloc / its fields
 		if u, ok := o.(*ssa.UnOp); ok && u.Op == token.MUL {
 			var al *ssa.Alloc
+			cellOf := func(x ssa.Value) *ssa.Alloc {
+				switch c := x.(type) {
+				case *ssa.Alloc:
+					return c
+				case *ssa.FreeVar:
+					b, _ := ir.BindingOf(c).(*ssa.Alloc)
+					return b
+				}
+				return nil
+			}
 			switch a := u.X.(type) {
 			case *ssa.FieldAddr:
-				al, _ = a.X.(*ssa.Alloc)
-			case *ssa.Alloc:
-				al = a
+				al = cellOf(a.X)
+			default:
+				al = cellOf(a)
 			}
 			if al != nil && al.Referrers() != nil {
 				for _, ref := range *al.Referrers() {
